@@ -498,6 +498,23 @@ fn deserialize_page_token<PageSelector: DeserializeOwned>(
     Ok(deserialized.page_start)
 }
 
+/// Verification hooks (compiled only with `--cfg dropshot_verif`).
+#[cfg(dropshot_verif)]
+#[doc(hidden)]
+pub mod verif_hooks {
+    pub fn serialize_page_token<T: serde::Serialize>(
+        page_start: T,
+    ) -> Result<String, crate::HttpError> {
+        super::serialize_page_token(page_start)
+    }
+
+    pub fn deserialize_page_token<T: serde::de::DeserializeOwned>(
+        token_str: &str,
+    ) -> Result<T, String> {
+        super::deserialize_page_token(token_str)
+    }
+}
+
 #[cfg(test)]
 mod test {
     use super::deserialize_page_token;
